@@ -72,6 +72,10 @@ class Box(object):
             return os.path.join(self.root, 'm1', '.Trash-%d' % self.uid)
         if kind == 'c':
             return os.path.join(self.root, 'm1', 'custom-trash')
+        if kind == 'cvol':
+            # a --trash-dir that is NAMED like a volume trash directory but lies below an ordinary directory of the volume
+            # (contents of a disk copied into a sub-directory): relative Path= values are relative to the volume all the same
+            return os.path.join(self.root, 'm1', 'copied-disk', '.Trash-%d' % self.uid)
         raise ValueError(kind)
 
     def tbase(self, kind):
@@ -94,14 +98,17 @@ def rand_name(rnd, maxlen=None, utf8_only=False):
     if r < 0.25:
         pool = [b'-rf', b' ', b'a b', b'new\nline', b'cr\r', b'100%', b'%41', b'%', b'%%', b'a+b', b'=', b'[x]', b'#', b'?', b'*',
                 b'caf\xc3\xa9', b'\xe2\x82\xac', b'.hidden', b'x.trashinfo', b'~', b"it's", b'"q"', b'\\', b'\t', b'\x01\x7f',
-                b'Path=evil', b'[Trash Info]', b'..a', b'a..', b'...', b'DeletionDate=1999-01-01T00:00:00']
+                b'Path=evil', b'[Trash Info]', b'..a', b'a..', b'...', b'DeletionDate=1999-01-01T00:00:00',
+                # valid UTF-8 that is not in normal form C (decomposed accents as HFS+ stores them, Hangul jamo, the Angstrom
+                # and Ohm signs): names are bytes, the composed spelling is ANOTHER name
+                b'cafe\xcc\x81', b'A\xcc\x8a.txt', b'\xe2\x84\xab', b'\xe1\x84\x80\xe1\x85\xa1', b'\xe2\x84\xa6 ohm', b'n\xcc\x83o']
         if not utf8_only:
             pool += [b'\xff', b'bad\xfe\xff', b'\xc3', b'\xe2\x82', b'latin\xe9']
         n = rnd.choice(pool)
     else:
         ln = rnd.choice([1, 2, 3, 5, 8, 13, 40, 100, 200, 236]) if r < 0.9 else 236
         if utf8_only:
-            alphabet = [bytes([c]) for c in range(1, 128) if c != 47] + [b'\xc3\xa9', b'\xe6\x97\xa5', b'\xf0\x9f\x98\x80']
+            alphabet = [bytes([c]) for c in range(1, 128) if c != 47] + [b'\xc3\xa9', b'\xe6\x97\xa5', b'\xf0\x9f\x98\x80', b'e\xcc\x81', b'\xe2\x84\xa6']
             n = b''
             while len(n) < ln:
                 n += rnd.choice(alphabet)
@@ -143,7 +150,8 @@ def put_and_readback(seed, n=14, utf8_only=False, alphabet_paths=None, td=None, 
         td_args = []
         relbase = None
         if td:
-            real_td = box.tdir('c')
+            real_td = box.tdir('cvol' if td == 'cvol' else 'c')
+            os.makedirs(os.path.dirname(real_td), exist_ok=True)
             if td == 'clink':
                 os.symlink(os.path.join(box.root, 'm1'), os.path.join(box.root, 'to-m1'))
                 td_args = ['--trash-dir', os.path.join(box.root, 'to-m1', os.path.basename(real_td))]
@@ -189,7 +197,7 @@ def put_and_readback(seed, n=14, utf8_only=False, alphabet_paths=None, td=None, 
             if rnd.random() < 0.15 and len(name) < 200:
                 # what an interrupted run left long ago: an info WITHOUT payload under the very name this entry will want,
                 # longer than the one to be written and hours old.  It is somebody's entry all the same: not to be reused.
-                tdp = os.fsencode(box.tdir('c' if td else 'home' if vol == 'R' else 't2'))
+                tdp = os.fsencode(box.tdir(('cvol' if td == 'cvol' else 'c') if td else 'home' if vol == 'R' else 't2'))
                 try:
                     os.makedirs(tdp + b'/info', exist_ok=True)
                     os.makedirs(tdp + b'/files', exist_ok=True)
@@ -224,7 +232,7 @@ def put_and_readback(seed, n=14, utf8_only=False, alphabet_paths=None, td=None, 
                 e['put_err'] = res['stderr'][-300:].decode('utf-8', 'replace')
         # find the info files
         for e in entries:
-            tdir = os.fsencode(box.tdir('c' if td else 'home' if e['vol'] == 'R' else 't2'))
+            tdir = os.fsencode(box.tdir(('cvol' if td == 'cvol' else 'c') if td else 'home' if e['vol'] == 'R' else 't2'))
             if relbase is not None:
                 e['top'] = relbase
             base = os.path.basename(e['path'])
